@@ -231,6 +231,22 @@ func (en *Engine) finish(e *Exec, fc *FuncContract, res *UnitResult) {
 			hdr.WriteString(fmt.Sprintf("(declare-const %s_0 %s)\n", hn, so.heaps[hn]))
 		}
 	}
+	declared := map[string]bool{}
+	for _, d := range e.decls {
+		if f := strings.Fields(d); len(f) > 1 && f[0] == "(declare-const" {
+			declared[f[1]] = true
+		}
+	}
+	var ags []string
+	for g := range e.autoGlobals {
+		ags = append(ags, g)
+	}
+	sort.Strings(ags)
+	for _, g := range ags {
+		if !declared[g] {
+			hdr.WriteString(fmt.Sprintf("(declare-const %s Int)\n", g))
+		}
+	}
 	for _, d := range e.decls {
 		if f := strings.Fields(d); len(f) > 1 && (f[0] == "(declare-fun" || f[0] == "(define-fun-rec" || f[0] == "(declare-const" || f[0] == "(define-fun") {
 			if strings.Contains(e.preludeText, f[0]+" "+f[1]+" ") || f[1] == "nextRef0" {
